@@ -494,6 +494,22 @@ func tryReplay(prop string, o *Obligation, u *Unit, vals map[string]string, repl
 		}
 		fmt.Fprintf(&body, "\tif !(%s) {\n\t\tt.Fatalf(\"VIOLATION reproduced: %s: the real code breaks the clause on this input\")\n\t}\n\tt.Log(\"clause holds on this input\")\n}\n", oracle, o.Name)
 	}
+	// imports used by the oracle / input literals (package-qualified names)
+	text := body.String()
+	var extra []string
+	for _, imp := range pkg.Imports() {
+		if imp.Name() == "strings" || imp.Name() == "testing" {
+			continue
+		}
+		if strings.Contains(text, imp.Name()+".") && hasQualifiedUse(text, imp.Name()) {
+			extra = append(extra, fmt.Sprintf("\t%q", imp.Path()))
+		}
+	}
+	if len(extra) > 0 {
+		text = strings.Replace(text, "\t\"strings\"\n", "\t\"strings\"\n"+strings.Join(extra, "\n")+"\n", 1)
+	}
+	body.Reset()
+	body.WriteString(text)
 	file := filepath.Join(replayDir, sanitize(o.Name)+"_test.go")
 	if err := os.WriteFile(file, []byte(body.String()), 0o644); err != nil {
 		return "", false
@@ -529,4 +545,19 @@ func tryReplay(prop string, o *Obligation, u *Unit, vals map[string]string, repl
 		return file, true
 	}
 	return file, false
+}
+
+func hasQualifiedUse(text, name string) bool {
+	i := 0
+	for {
+		j := strings.Index(text[i:], name+".")
+		if j < 0 {
+			return false
+		}
+		j += i
+		if j == 0 || !isIdentChar(text[j-1]) && text[j-1] != '.' && text[j-1] != '/' && text[j-1] != '"' {
+			return true
+		}
+		i = j + 1
+	}
 }
